@@ -468,6 +468,16 @@ func slicesEqual(x, y any) (err error) {
 		_, xv, _ := derefPtr(xrv.Index(i).Type(), xrv.Index(i))
 		_, yv, _ := derefPtr(yrv.Index(i).Type(), yrv.Index(i))
 
+		// a nil pointer dereferences to nothing: it
+		// equals only another nil, and there is no
+		// value to inspect any further.
+		if !xv.IsValid() || !yv.IsValid() {
+			if xv.IsValid() != yv.IsValid() {
+				err = errorf("Nil slice/array element mismatch")
+			}
+			continue
+		}
+
 		// Get primitives out of the way
 		var tried bool
 		if tried, err = primitivesEqual(xv, yv); tried {
